@@ -18,11 +18,6 @@ var NonWf = map[string]string{
 // types that contain a hand-written codec whose round-trip lemma (CodecOK) is not proved yet: the model of the codec
 // exists and is compared with the implementation on every run, but the generic theorem does not cover these types
 var unprovedCodec = map[string]string{
-	"tlb.SnakeData": "snake", "tlb.Bytes": "snake", "tlb.Text": "snake", "tlb.ContentData": "snake", "tlb.FullContent": "snake",
-	"abi.EncryptedTextCommentJettonPayload": "snake", "abi.EncryptedTextCommentMsgBody": "snake",
-	"abi.EncryptedTextCommentNFTPayload": "snake", "abi.GetNftApiInfoResult": "snake", "abi.GetTelemintTokenNameResult": "snake",
-	"abi.TextCommentJettonPayload": "snake", "abi.TextCommentMsgBody": "snake", "abi.TextCommentNFTPayload": "snake",
-	"abi.TorrentInfo": "snake",
 	"wallet.W5Actions": "w5Actions", "wallet.MessageV5Beta": "w5Actions",
 }
 
